@@ -71,6 +71,7 @@ type c20Up struct {
 	Status int    `json:"status"`
 	Chunks []int  `json:"chunks"`
 	Err    string `json:"err"` // "" | timeout | net | eof | canceled | other
+	Cut    bool   `json:"cut"` // the connection to the upstream breaks after the header and the chunks (no Content-Length)
 }
 
 type c20Times struct {
@@ -157,13 +158,19 @@ func (c *clientConn) view() map[string]interface{} {
 
 // ---- the upstream
 
-type chunkBody struct{ left []int }
+type chunkBody struct {
+	left []int
+	cut  bool
+}
 
 func (b *chunkBody) Read(p []byte) (int, error) {
 	for len(b.left) > 0 && b.left[0] == 0 {
 		b.left = b.left[1:]
 	}
 	if len(b.left) == 0 {
+		if b.cut {
+			return 0, io.ErrUnexpectedEOF
+		}
 		return 0, io.EOF
 	}
 	n := b.left[0]
@@ -228,11 +235,15 @@ func (t *scriptRT) RoundTrip(req *http.Request) (*http.Response, error) {
 	for _, n := range t.up.Chunks {
 		total += n
 	}
+	cl := int64(total)
+	if t.up.Cut {
+		cl = -1 // a streamed (chunked) response: only the end of the connection tells the client where it ends
+	}
 	return &http.Response{
 		StatusCode: t.up.Status, Proto: "HTTP/1.1", ProtoMajor: 1, ProtoMinor: 1,
 		Header:        http.Header{"Content-Type": {"text/plain"}},
-		Body:          &chunkBody{left: append([]int{}, t.up.Chunks...)},
-		ContentLength: int64(total), Request: req,
+		Body:          &chunkBody{left: append([]int{}, t.up.Chunks...), cut: t.up.Cut},
+		ContentLength: cl, Request: req,
 	}, nil
 }
 
@@ -320,7 +331,25 @@ func (q *c20ServeReq) request() *http.Request {
 	if q.TLS != nil {
 		r.TLS = &tls.ConnectionState{Version: uint16(q.TLS.Ver), CipherSuite: uint16(q.TLS.CS)}
 	}
-	return r
+	// as net/http's server hands it to a handler (httputil.ReverseProxy aborts the handler on a broken upstream
+	// body only for requests that come from a server)
+	return r.WithContext(context.WithValue(context.Background(), http.ServerContextKey, &http.Server{}))
+}
+
+// serveOnce runs one request through ServeHTTP the way net/http's server does: a panic with http.ErrAbortHandler
+// means "tear the connection down" (the client sees an aborted response), any other panic is a crash.
+func serveOnce(p *proxy.HTTPProxy, w http.ResponseWriter, r *http.Request) (aborted bool) {
+	defer func() {
+		if e := recover(); e != nil {
+			if e == http.ErrAbortHandler {
+				aborted = true
+				return
+			}
+			panic(e)
+		}
+	}()
+	p.ServeHTTP(w, r)
+	return false
 }
 
 func (q *c20ServeReq) target() *route.Target {
@@ -384,10 +413,10 @@ func runServe(in *c20ServeIn) (interface{}, error) {
 
 		cc := &clientConn{hdr: http.Header{}}
 		r := cur.request()
-		p.ServeHTTP(cc, r)
+		aborted := serveOnce(p, cc, r)
 
 		ccTwin := &clientConn{hdr: http.Header{}}
-		twin.ServeHTTP(ccTwin, cur.request())
+		abortedTwin := serveOnce(twin, ccTwin, cur.request())
 
 		o := map[string]interface{}{}
 		text := w.buf.String()[before:]
@@ -407,7 +436,8 @@ func runServe(in *c20ServeIn) (interface{}, error) {
 		o["client"] = cc.view()
 		a, _ := json.Marshal(cc.view())
 		bb, _ := json.Marshal(ccTwin.view())
-		o["twin_same"] = string(a) == string(bb) && fmt.Sprint(cc.hdr) == fmt.Sprint(ccTwin.hdr)
+		o["twin_same"] = string(a) == string(bb) && fmt.Sprint(cc.hdr) == fmt.Sprint(ccTwin.hdr) && aborted == abortedTwin
+		o["aborted"] = aborted
 		up := map[string]interface{}{"called": rt.seen.called}
 		if rt.seen.called {
 			up["url"] = urlJSON(&rt.seen.u)
@@ -558,6 +588,9 @@ func genServeReq(r *hx.Rand) c20ServeReq {
 		for k := r.Intn(4); k > 0; k-- {
 			up.Chunks = append(up.Chunks, pickInt(r, []int{0, 1, 13, 512, 4096, 32768, 40000, r.Intn(70000)}))
 		}
+		if r.Chance(1, 9) { // the upstream dies in the middle of a streamed body
+			up.Cut = true
+		}
 	}
 	q.Up = up
 	ev := genEvent(r)
@@ -661,6 +694,8 @@ func init() {
 			c20ServeIn{Items: splitFormatItems("$header.X-Request-Id", " ", "$response_status"), Cfg: c20SCfg{ReqID: "X-Request-Id"}, Reqs: []c20ServeReq{base, base, base}},
 			// D26 through ServeHTTP: nothing to print, no line
 			c20ServeIn{Items: []c20Item{{"header", "Referer"}}, Reqs: []c20ServeReq{base}},
+			// the upstream breaks in the middle of a streamed body: the client must not get it as a complete response
+			c20ServeIn{Items: urls, Reqs: []c20ServeReq{with(func(q *c20ServeReq) { q.Up = c20Up{Info: []int{}, Status: 200, Chunks: []int{33}, Cut: true} }), base}},
 			// answered by the proxy itself: no route, bad remote address, transport error
 			c20ServeIn{Items: c20Common, Reqs: []c20ServeReq{with(func(q *c20ServeReq) { q.Route = nil }), with(func(q *c20ServeReq) { q.Remote = "1.2.3.4" }),
 				with(func(q *c20ServeReq) { q.Up = c20Up{Info: []int{}, Chunks: []int{}, Err: "timeout"} })}},
